@@ -165,15 +165,26 @@ class VariableBoundVisitor(ModelVisitor):
             lhs_is_nonrand = IsNonRandExprVisitor().is_nonrand(e.lhs)
             rhs_is_nonrand = IsNonRandExprVisitor().is_nonrand(e.rhs)
 
-            if lhs_fm is not None and lhs_fm in self.bound_m.keys():                
+            if lhs_fm is not None and lhs_fm in self.bound_m.keys():
                 lhs_bounds = self.bound_m[lhs_fm]
             else:
                 lhs_bounds = None
                 
-            if rhs_fm is not None and rhs_fm in self.bound_m.keys():                
+            if rhs_fm is not None and rhs_fm in self.bound_m.keys():
                 rhs_bounds = self.bound_m[rhs_fm]
             else:
                 rhs_bounds = None
+                
+            # When a field that is random in this call is compared with one 
+            # that is not, the latter is a constant (its current value), 
+            # not a variable with a range
+            if lhs_bounds is not None and rhs_bounds is not None:
+                lhs_rand = getattr(lhs_fm, "is_used_rand", True)
+                rhs_rand = getattr(rhs_fm, "is_used_rand", True)
+                if lhs_rand and not rhs_rand:
+                    rhs_bounds = None
+                elif rhs_rand and not lhs_rand:
+                    lhs_bounds = None
                 
             propagator = None
                 
